@@ -59,7 +59,7 @@ func coqPath(m map[string]string) string {
 func c15(args []string) int {
 	run := NewRun("C15", args)
 	r := run.R
-	run.Sum.Rule = "configurations: host sets of 0..7 hosts with partial, overlapping metadata over keys {k1,k2,k3} x values {a,b,c} (same values under different keys on purpose), some hosts unhealthy; selector lists incl. nested, duplicate, unsorted and EMPTY key sets, and (45 %) a pair of selectors one of whose sorted key lists is a prefix / suffix / subset of the other's, in both orders; the three fallback policies; default subsets (empty, matching, non-matching). queries per configuration: nil criteria, empty criteria, every selector instantiated from a host (hit), with one value changed, strict subsets and supersets of selectors, unknown keys and values. A configuration is non-trivial when it has >= 2 hosts and >= 1 selector; distinct by (hosts, selectors, policy, default)."
+	run.Sum.Rule = "configurations: host sets of 0..7 hosts with partial, overlapping metadata over keys {k1,k2,k3} x values {a,b,c} (same values under different keys on purpose), some hosts unhealthy; selector lists incl. nested, duplicate, unsorted and EMPTY key sets, and (45 %) a pair of selectors one of whose sorted key lists is a prefix / suffix / subset of the other's, in both orders; the three fallback policies; default subsets (empty, matching, non-matching). queries per configuration: nil criteria, empty criteria, every selector instantiated from a host (hit), with one value changed, strict subsets and supersets of selectors, unknown keys and values. A configuration is non-trivial when it has >= 2 hosts and >= 1 selector; distinct by (hosts, selectors, policy, default). criteria: histories of 2-6 requests through one real route rule (metadata_match of 0-2 pairs), ~55 % of the requests with dynamic metadata, real downStream.MetadataMatchCriteria, then the real subset balancer; non-trivial when the route has metadata_match and some request carries metadata."
 	header := "From MV Require Import Gen.SubsetTokens Model.Subset.\nFrom Coq Require Import List Arith.\nImport ListNotations.\n"
 	sh := run.NewShard(header, "ss_case", "ss_mismatches fh_mode")
 	hostSeq := 0
@@ -539,5 +539,6 @@ func c15(args []string) int {
 		}
 	}
 	sh.Close()
+	c15crit(run)
 	return run.Finish()
 }
